@@ -250,12 +250,17 @@ Definition fresh2_b (x : state) : bool :=
   && forallb (fun jb => negb (is_output i (j_loc jb)) || all_operations_done jb) (s_jobs x)
   && forallb (fun ts => tstate_eqb (t_st ts) TIdle && is_nil (b_store (t_buf ts))) (s_trans x).
 
+(* no AGV waits on a TimeDependency (hypothesis on the initial state of the theorems of SMP/ProvBatch.v; an
+   invariant of instances whose machine post-buffers are unordered) *)
+Definition nodep_b (x : state) : bool :=
+  forallb (fun ts => match t_occ ts with ODep _ _ _ => false | _ => true end) (s_trans x).
+
 (* the clause vector the monitors print, in this order *)
 Definition clause_vector (x : state) : list bool :=
   [ placement_b x; loc_b x; mach_hold_b x; agv_hold_b x; claims_b x; capacity_b x; flags_b x;
     feasible_b x; no_overdue_b x; past_b x; busy_op_b x; proc_inner_b x; output_done_b x;
-    outages_b x; outage_nonneg_b x; agv_phase_b x; idle_unclaimed_b x; sto_ok_b x; fresh_b x; agv_load_b x; fresh2_b x ].
+    outages_b x; outage_nonneg_b x; agv_phase_b x; idle_unclaimed_b x; sto_ok_b x; fresh_b x; agv_load_b x; fresh2_b x; nodep_b x ].
 
 End WithInst.
 
-Definition clause_names : list nat := seq0 21.
+Definition clause_names : list nat := seq0 22.
